@@ -278,6 +278,12 @@ def change_menu(mname, f, level):
                     na = dict(a)
                 init = None
                 out.append(['ChangeField', mname, name, na, init, nt])
+                if a.get('null') and t in INITIALS:
+                    # type change combined with null -> not null
+                    nb = {k: v for k, v in na.items() if k != 'null'}
+                    nb['null'] = False
+                    out.append(['ChangeField', mname, name, nb,
+                                INITIALS[t][0], nt])
     if not rel:
         if a.get('db_column'):
             cf({'db_column': None})
